@@ -7,9 +7,16 @@ import (
 	"encoding/json"
 	"fmt"
 	"go/ast"
+	"go/parser"
+	"go/token"
 	"io"
+	"io/fs"
 	"math"
 	"math/rand"
+	"path/filepath"
+	"runtime"
+	"runtime/debug"
+	"sort"
 	"strings"
 
 	"github.com/gogo/protobuf/proto"
@@ -109,9 +116,121 @@ func facts(repo string, w io.Writer) error {
 		}
 		return true
 	})
-	fmt.Fprintf(w, "(* translateV2ToV1: direct symbol-table index expressions, calls of v2Labels *)\nDefinition translate_direct_symbol_indexing : Z := %d.\nDefinition translate_v2Labels_calls : Z := %d.\n", direct, viaHelper)
+	fmt.Fprintf(w, "(* translateV2ToV1: direct symbol-table index expressions, calls of v2Labels *)\nDefinition translate_direct_symbol_indexing : Z := %d.\nDefinition translate_v2Labels_calls : Z := %d.\n\n", direct, viaHelper)
+
+	// 4. state the v2 path reads: fields of the Handler (through the receiver)
+	//    and package-level variables of pkg/receive
+	fields := map[string]bool{}
+	for _, d := range s.File.Decls {
+		gd, ok := d.(*ast.GenDecl)
+		if !ok || gd.Tok != token.TYPE {
+			continue
+		}
+		for _, sp := range gd.Specs {
+			ts := sp.(*ast.TypeSpec)
+			st, ok := ts.Type.(*ast.StructType)
+			if ts.Name.Name != "Handler" || !ok {
+				continue
+			}
+			for _, f := range st.Fields.List {
+				for _, n := range f.Names {
+					fields[n.Name] = true
+				}
+				if len(f.Names) == 0 { // embedded
+					fields[s.ExprString(f.Type)] = true
+				}
+			}
+		}
+	}
+	if len(fields) == 0 {
+		return fmt.Errorf("type Handler struct not found")
+	}
+	pkgVars := map[string]bool{}
+	fset := token.NewFileSet()
+	pkgs, err := parser.ParseDir(fset, filepath.Join(repo, "pkg/receive"), func(fi fsFileInfo) bool {
+		return !strings.HasSuffix(fi.Name(), "_test.go")
+	}, 0)
+	if err != nil {
+		return err
+	}
+	for _, pk := range pkgs {
+		for _, f := range pk.Files {
+			for _, d := range f.Decls {
+				if gd, ok := d.(*ast.GenDecl); ok && gd.Tok == token.VAR {
+					for _, sp := range gd.Specs {
+						for _, n := range sp.(*ast.ValueSpec).Names {
+							pkgVars[n.Name] = true
+						}
+					}
+				}
+			}
+		}
+	}
+	readFields, readVars := map[string]bool{}, map[string]bool{}
+	for _, fn := range []string{"Handler.handleV2HTTP", "translateV2ToV1", "v2Labels", "translateV2SpansToV1"} {
+		fd, err := s.FindFunc(fn)
+		if err != nil {
+			return err
+		}
+		recv := ""
+		if fd.Recv != nil && len(fd.Recv.List) == 1 && len(fd.Recv.List[0].Names) == 1 {
+			recv = fd.Recv.List[0].Names[0].Name
+		}
+		locals := map[string]bool{}
+		ast.Inspect(fd, func(n ast.Node) bool {
+			switch x := n.(type) {
+			case *ast.AssignStmt:
+				if x.Tok == token.DEFINE {
+					for _, l := range x.Lhs {
+						if id, ok := l.(*ast.Ident); ok {
+							locals[id.Name] = true
+						}
+					}
+				}
+			case *ast.Field:
+				for _, nm := range x.Names {
+					locals[nm.Name] = true
+				}
+			case *ast.RangeStmt:
+				for _, e := range []ast.Expr{x.Key, x.Value} {
+					if id, ok := e.(*ast.Ident); ok {
+						locals[id.Name] = true
+					}
+				}
+			case *ast.ValueSpec:
+				for _, nm := range x.Names {
+					locals[nm.Name] = true
+				}
+			}
+			return true
+		})
+		ast.Inspect(fd.Body, func(n ast.Node) bool {
+			switch x := n.(type) {
+			case *ast.SelectorExpr:
+				if id, ok := x.X.(*ast.Ident); ok && recv != "" && id.Name == recv && fields[x.Sel.Name] {
+					readFields[x.Sel.Name] = true
+				}
+			case *ast.Ident:
+				if pkgVars[x.Name] && !locals[x.Name] {
+					readVars[x.Name] = true
+				}
+			}
+			return true
+		})
+	}
+	strList := func(m map[string]bool) string {
+		var ks []string
+		for k := range m {
+			ks = append(ks, common.CoqString(k))
+		}
+		sort.Strings(ks)
+		return "[" + strings.Join(ks, "; ") + "]%string"
+	}
+	fmt.Fprintf(w, "(* handleV2HTTP / translateV2ToV1 / v2Labels / translateV2SpansToV1: Handler fields read through the receiver, package-level variables of pkg/receive read *)\nDefinition v2_handler_fields_read : list string := %s.\nDefinition v2_package_vars_read : list string := %s.\n", strList(readFields), strList(readVars))
 	return nil
 }
+
+type fsFileInfo = fs.FileInfo
 
 // ---- input ----
 type sample struct {
@@ -150,6 +269,11 @@ type series struct {
 type input struct {
 	Symbols []string `json:"symbols"`
 	Series  []series `json:"series"`
+}
+
+// history is a sequence of requests served by the same handler.
+type history struct {
+	Requests []input `json:"requests"`
 }
 
 func f64(b uint64) float64 { return math.Float64frombits(b) }
@@ -320,69 +444,125 @@ func (s *series) coq() string {
 }
 
 func run(raw json.RawMessage) (common.Case, error) {
-	var in input
-	if err := json.Unmarshal(raw, &in); err != nil {
+	var hist history
+	if err := json.Unmarshal(raw, &hist); err != nil {
 		return common.Case{}, err
 	}
-	buf, err := proto.Marshal(in.toProto())
-	if err != nil {
-		return common.Case{}, err
-	}
-	res, err := ru.IngestHTTP(snappy.Encode(nil, buf), map[string]string{
-		"Content-Type":                      "application/x-protobuf;proto=io.prometheus.write.v2.Request",
-		"X-Prometheus-Remote-Write-Version": "2.0.0",
-	})
-	if err != nil {
-		return common.Case{}, err
-	}
-	var c common.Case
-	var syms, sers, outs []string
-	for _, s := range in.Symbols {
-		syms = append(syms, common.Bytes(s))
-	}
-	bad := false
-	nlabels := 0
-	for i := range in.Series {
-		sers = append(sers, in.Series[i].coq())
-		for _, r := range in.Series[i].Refs {
-			bad = bad || int(r) >= len(in.Symbols)
+	if len(hist.Requests) == 0 { // a single request (older corpus files)
+		var in input
+		if err := json.Unmarshal(raw, &in); err != nil {
+			return common.Case{}, err
 		}
-		nlabels += len(in.Series[i].Refs) / 2
-		for _, e := range in.Series[i].Exemplars {
-			for _, r := range e.Refs {
+		hist.Requests = []input{in}
+	}
+	// one P and no garbage collection while the history runs, so that an object
+	// a request puts into a sync.Pool is what the next request gets out of it
+	defer runtime.GOMAXPROCS(runtime.GOMAXPROCS(1))
+	defer debug.SetGCPercent(debug.SetGCPercent(-1))
+	sess, err := ru.NewIngestSession()
+	if err != nil {
+		return common.Case{}, err
+	}
+	defer sess.Close()
+
+	var c common.Case
+	var recs []string
+	var obs []any
+	anyBad, nlabelsAll := false, 0
+	for k := range hist.Requests {
+		in := &hist.Requests[k]
+		buf, err := proto.Marshal(in.toProto())
+		if err != nil {
+			return common.Case{}, err
+		}
+		res, err := sess.Send(snappy.Encode(nil, buf), map[string]string{
+			"Content-Type":                      "application/x-protobuf;proto=io.prometheus.write.v2.Request",
+			"X-Prometheus-Remote-Write-Version": "2.0.0",
+		})
+		if err != nil {
+			return common.Case{}, err
+		}
+		var syms, sers, outs []string
+		for _, s := range in.Symbols {
+			syms = append(syms, common.Bytes(s))
+		}
+		bad := false
+		for i := range in.Series {
+			sers = append(sers, in.Series[i].coq())
+			for _, r := range in.Series[i].Refs {
 				bad = bad || int(r) >= len(in.Symbols)
 			}
+			nlabelsAll += len(in.Series[i].Refs) / 2
+			for _, e := range in.Series[i].Exemplars {
+				for _, r := range e.Refs {
+					bad = bad || int(r) >= len(in.Symbols)
+				}
+			}
+		}
+		anyBad = anyBad || bad
+		for _, ts := range res.Ingested {
+			outs = append(outs, v1Series(ts))
+		}
+		recs = append(recs, common.App("CV2", common.List(syms), common.List(sers), common.Bool(res.Panic != ""), common.Z(int64(res.Status)), common.List(outs)))
+		obs = append(obs, map[string]any{"status": res.Status, "panic": res.Panic, "ingested_series": len(res.Ingested), "body": strings.TrimSpace(res.Body)})
+		if c.GoPred != "" {
+			continue
+		}
+		where := fmt.Sprintf("request %d of %d: ", k+1, len(hist.Requests))
+		switch {
+		case res.Panic != "":
+			c.GoPred = where + "request handling panicked: " + res.Panic
+			c.Sig = "panic-on-symbol-ref"
+		case bad && (res.Status < 400 || res.Status > 499):
+			c.GoPred = where + fmt.Sprintf("request with an out-of-range symbol reference answered %d, not a client error", res.Status)
+			c.Sig = "bad-ref-not-4xx"
+		case bad && len(res.Ingested) > 0:
+			c.GoPred = where + "request with an out-of-range symbol reference was (partly) ingested"
+			c.Sig = "bad-ref-ingested"
+		case !bad && res.Status != 200:
+			c.GoPred = where + fmt.Sprintf("valid request answered %d", res.Status)
+			c.Sig = "valid-rejected"
+		case !bad && !sameLabels(in, res.Ingested):
+			c.GoPred = where + "the series were not ingested under the labels the request's own symbols table describes"
+			c.Sig = "wrong-labels"
 		}
 	}
-	for _, ts := range res.Ingested {
-		outs = append(outs, v1Series(ts))
-	}
-	c.Coq = common.App("CV2", common.List(syms), common.List(sers), common.Bool(res.Panic != ""), common.Z(int64(res.Status)), common.List(outs))
-	c.Obs = map[string]any{"status": res.Status, "panic": res.Panic, "ingested_series": len(res.Ingested), "body": strings.TrimSpace(res.Body)}
+	c.Coq = common.App("CHist", common.List(recs))
+	c.Obs = obs
 	switch {
-	case bad:
+	case len(hist.Requests) > 1 && anyBad:
+		c.Class = fmt.Sprintf("history%d/with-rejected", len(hist.Requests))
+	case len(hist.Requests) > 1:
+		c.Class = fmt.Sprintf("history%d/valid", len(hist.Requests))
+	case anyBad:
 		c.Class = "bad-ref"
-	case len(in.Series) == 0:
+	case len(hist.Requests[0].Series) == 0:
 		c.Class = "empty"
 	default:
 		c.Class = "valid"
 	}
-	c.Nontrivial = bad || nlabels > 0
-	switch {
-	case res.Panic != "":
-		c.GoPred = "request handling panicked: " + res.Panic
-		c.Sig = "panic-on-symbol-ref"
-	case bad && (res.Status < 400 || res.Status > 499):
-		c.GoPred = fmt.Sprintf("request with an out-of-range symbol reference answered %d, not a client error", res.Status)
-		c.Sig = "bad-ref-not-4xx"
-	case bad && len(res.Ingested) > 0:
-		c.GoPred = "request with an out-of-range symbol reference was (partly) ingested"
-		c.Sig = "bad-ref-ingested"
-	case !bad && res.Status != 200:
-		c.GoPred = fmt.Sprintf("valid request answered %d", res.Status)
-		c.Sig = "valid-rejected"
-	}
+	c.Nontrivial = anyBad || nlabelsAll > 0
+	runtime.GC()
 	return c, nil
+}
+
+// sameLabels: the ingested series carry exactly the labels the request describes.
+func sameLabels(in *input, got []prompb.TimeSeries) bool {
+	if len(got) != len(in.Series) {
+		return false
+	}
+	for i, s := range in.Series {
+		if len(got[i].Labels) != len(s.Refs)/2 {
+			return false
+		}
+		for j := 0; j+1 < len(s.Refs); j += 2 {
+			l := got[i].Labels[j/2]
+			if l.Name != in.Symbols[s.Refs[j]] || l.Value != in.Symbols[s.Refs[j+1]] {
+				return false
+			}
+		}
+	}
+	return true
 }
 
 // ---- generator ----
@@ -432,8 +612,57 @@ func genHist(r *rand.Rand) hist {
 		Reset: common.Pick(r, int32(0), 1, 2, 3, 7, -1), T: common.Pick(r, int64(r.Intn(1e6)), 1700000000000, -5), Custom: genBitsList(r, 3)}
 }
 
+// gen builds histories: a third single requests, the rest 2..3 requests through
+// the same handler, many of them with a rejected request followed by a valid one.
 func gen(r *rand.Rand, tier string, n int) []any {
+	single := genRequests(r, tier, 3*n)
 	var out []any
+	k := 0
+	next := func(wantBad int) input { // wantBad: 1 rejected, 0 valid, -1 any
+		for tries := 0; tries < 200; tries++ {
+			in := single[k%len(single)]
+			k++
+			if wantBad < 0 || (wantBad == 1) == hasBadRef(&in) {
+				return in
+			}
+		}
+		return single[k%len(single)]
+	}
+	for len(out) < n {
+		switch r.Intn(6) {
+		case 0, 1:
+			out = append(out, history{Requests: []input{next(-1)}})
+		case 2, 3:
+			out = append(out, history{Requests: []input{next(1), next(0)}})
+		case 4:
+			out = append(out, history{Requests: []input{next(0), next(1), next(0)}})
+		default:
+			out = append(out, history{Requests: []input{next(-1), next(-1), next(-1)}})
+		}
+	}
+	return out
+}
+
+func hasBadRef(in *input) bool {
+	for _, s := range in.Series {
+		for _, r := range s.Refs {
+			if int(r) >= len(in.Symbols) {
+				return true
+			}
+		}
+		for _, e := range s.Exemplars {
+			for _, r := range e.Refs {
+				if int(r) >= len(in.Symbols) {
+					return true
+				}
+			}
+		}
+	}
+	return false
+}
+
+func genRequests(r *rand.Rand, tier string, n int) []input {
+	var out []input
 	words := []string{"", "__name__", "job", "instance", "le", "up", "http_requests_total", "a", "b", "trace_id", "x\ny", "ünï", "0.5", "node-1:9100", "=", "\"q\""}
 	maxSeries, maxRefs := 4, 8
 	if tier == "thorough" {
